@@ -568,18 +568,21 @@ func init() {
 		replayWitnesses(c, map[string]func(witness) string{"exec-glsl": witnessExecText(glslBackend)})
 		c.Each(c.N(600, 6000), textDiffCheck(c, glslBackend, "C05"))
 		c01PtrArgs(c, []string{"glsl"})
+		c01ConstBits(c, []string{"glsl"})
 		return c.Finish(textDiffRule("GLSL"), []string{"glslx implements GLSL 4.x / ES 3.1 semantics, std430/std140 layout and treats GLSL-undefined operations as traps", "executions on which GLSL itself is undefined are outside the property"})
 	})
 	register("C04", func(c *run.Ctx) int {
 		replayWitnesses(c, map[string]func(witness) string{"exec-msl": witnessExecText(mslBackend)})
 		c.Each(c.N(600, 6000), textDiffCheck(c, mslBackend, "C04"))
 		c01PtrArgs(c, []string{"msl"})
+		c01ConstBits(c, []string{"msl"})
 		return c.Finish(textDiffRule("MSL"), []string{"mslx implements MSL / C++14 semantics and the Metal ABI layout (vec3 = 16 bytes, packed vectors, matrices as column arrays)"})
 	})
 	register("C03", func(c *run.Ctx) int {
 		replayWitnesses(c, map[string]func(witness) string{"exec-hlsl": witnessExecText(hlslBackend)})
 		c.Each(c.N(600, 6000), textDiffCheck(c, hlslBackend, "C03"))
 		c01PtrArgs(c, []string{"hlsl"})
+		c01ConstBits(c, []string{"hlsl"})
 		return c.Finish(textDiffRule("HLSL"), []string{"hlslx implements HLSL semantics, byte-address buffer methods and legacy cbuffer packing"})
 	})
 }
